@@ -1,4 +1,282 @@
+(* props/C20.v - property C20: Digest and element conversions are lossless, order-preserving and strict.
+   Only statements, each closed by `exact`, each followed by Print Assumptions.
+   Model: model/DigestConv.v (field values in [0,P); a digest is the list of its five values;
+   strings and byte strings are lists of byte codes; a Rust Err is None). *)
 From Coq Require Import ZArith Bool List.
 From TF Require Import BFieldGen DigestConv DigestConvProofs.
-Theorem C20_stub : True. Proof. exact stub_true. Qed.
-Print Assumptions C20_stub.
+Import ListNotations.
+Open Scope Z_scope.
+
+(* ---------------------------------------------------------------- Digest <-> [u8; 40] / &[u8] *)
+Theorem C20_bytes_roundtrip : forall d, wf_digest d ->
+  digest_try_from_slice (digest_to_bytes d) = Some d.
+Proof. exact digest_bytes_roundtrip. Qed.
+Print Assumptions C20_bytes_roundtrip.
+
+Theorem C20_bytes_shape : forall d, wf_digest d ->
+  length (digest_to_bytes d) = 40%nat /\ byte_list (digest_to_bytes d).
+Proof. exact digest_to_bytes_40. Qed.
+Print Assumptions C20_bytes_shape.
+
+(* lossless, strict and unique at once: an input is accepted iff it is the encoding of a well-formed digest *)
+Theorem C20_bytes_accept_iff : forall l d, byte_list l ->
+  (digest_try_from_slice l = Some d <-> wf_digest d /\ digest_to_bytes d = l).
+Proof. exact digest_bytes_accept_iff. Qed.
+Print Assumptions C20_bytes_accept_iff.
+
+Theorem C20_bytes_wrong_length : forall l, length l <> 40%nat -> digest_try_from_slice l = None.
+Proof. exact digest_bytes_wrong_length. Qed.
+Print Assumptions C20_bytes_wrong_length.
+
+(* an 8-byte word >= p at any element position is rejected, not reduced *)
+Theorem C20_bytes_noncanonical_element : forall n pre c post,
+  length pre = (8 * n)%nat -> length c = 8%nat -> byte_list c -> P <= from_le_bytes c ->
+  digest_try_from_slice (pre ++ c ++ post) = None.
+Proof. exact digest_bytes_noncanon. Qed.
+Print Assumptions C20_bytes_noncanonical_element.
+
+Theorem C20_bytes_array_is_slice : forall l, length l = 40%nat ->
+  digest_try_from_slice l = digest_try_from_array l.
+Proof. exact digest_slice_array_agree. Qed.
+Print Assumptions C20_bytes_array_is_slice.
+
+(* ---------------------------------------------------------------- hex *)
+Theorem C20_hex_roundtrip : forall d, wf_digest d ->
+  digest_try_from_hex (digest_to_hex d) = Some d /\ digest_try_from_hex (digest_to_hex_upper d) = Some d.
+Proof. exact digest_hex_roundtrip_both. Qed.
+Print Assumptions C20_hex_roundtrip.
+
+Theorem C20_hex_shape : forall d, wf_digest d ->
+  length (digest_to_hex d) = 80%nat /\ Forall lower_hex_char (digest_to_hex d).
+Proof. exact digest_to_hex_shape. Qed.
+Print Assumptions C20_hex_shape.
+
+(* accepted hex: 80 hex characters, a well-formed digest, and a lowercase input is exactly to_hex of the result *)
+Theorem C20_hex_accept : forall s d, digest_try_from_hex s = Some d ->
+  length s = 80%nat /\ Forall hex_char s /\ wf_digest d /\ (Forall lower_hex_char s -> digest_to_hex d = s).
+Proof. exact digest_hex_accept. Qed.
+Print Assumptions C20_hex_accept.
+
+Theorem C20_hex_wrong_length : forall s, length s <> 80%nat -> digest_try_from_hex s = None.
+Proof. exact digest_hex_wrong_length. Qed.
+Print Assumptions C20_hex_wrong_length.
+
+Theorem C20_hex_invalid_digit : forall s c, In c s -> ~ hex_char c -> digest_try_from_hex s = None.
+Proof. exact digest_hex_invalid. Qed.
+Print Assumptions C20_hex_invalid_digit.
+
+Theorem C20_hex_noncanonical_element : forall up n pre c post,
+  length pre = (8 * n)%nat -> length c = 8%nat -> byte_list pre -> byte_list c -> byte_list post ->
+  P <= from_le_bytes c -> digest_try_from_hex (hex_encode up (pre ++ c ++ post)) = None.
+Proof. exact digest_hex_noncanon. Qed.
+Print Assumptions C20_hex_noncanonical_element.
+
+(* ---------------------------------------------------------------- decimal strings *)
+(* Display -> FromStr on the model of the CURRENT tree (`digest_elem_to_string` in model/DigestConv.v).
+   Pinned tree: Digest::fmt goes through BFieldElement's Display, which prints "-k" for the last 256
+   values; u64::from_str rejects it.  Witness: [p-1; 0; 0; 0; 0] prints as "-1,0,0,0,0".
+   AFTER Digest::fmt IS REPAIRED: change `digest_elem_to_string` in the model to `digest_elem_canonical v`
+   (or `digest_elem_nonneg v`) and replace this theorem by
+     Theorem C20_display_roundtrip : forall d, wf_digest d -> digest_from_str (digest_to_string d) = Some d.
+     Proof. exact (digest_string_roundtrip_if_canonical (fun v => eq_refl)). Qed.
+   (resp. digest_string_roundtrip_if_nonneg). *)
+Theorem C20_display_roundtrip : forall d, wf_digest d -> digest_from_str (digest_to_string d) = Some d.
+Proof. exact (digest_string_roundtrip_if_canonical (fun v => eq_refl)). Qed.
+Print Assumptions C20_display_roundtrip.
+
+(* the positive theorems for the two candidate repairs of Digest::fmt (independent of the switch above) *)
+Theorem C20_display_roundtrip_repaired_canonical : forall d, wf_digest d ->
+  digest_from_str (digest_to_string_with digest_elem_canonical d) = Some d.
+Proof. exact digest_string_roundtrip_canonical. Qed.
+Print Assumptions C20_display_roundtrip_repaired_canonical.
+
+Theorem C20_display_roundtrip_repaired_nonneg : forall d, wf_digest d ->
+  digest_from_str (digest_to_string_with digest_elem_nonneg d) = Some d.
+Proof. exact digest_string_roundtrip_nonneg. Qed.
+Print Assumptions C20_display_roundtrip_repaired_nonneg.
+
+(* what does hold for the element Display: exact below p - 256, rejected from there on *)
+Theorem C20_display_roundtrip_below_cutoff : forall d, length d = 5%nat ->
+  Forall (fun v => 0 <= v < P - 256) d -> digest_from_str (digest_to_string_with bfe_display d) = Some d.
+Proof. exact digest_string_roundtrip_display_below. Qed.
+Print Assumptions C20_display_roundtrip_below_cutoff.
+
+Theorem C20_bfe_display_parse : forall v,
+  (0 <= v < P - 256 -> bfe_from_str (bfe_display v) = Some v) /\
+  (P - 256 <= v -> bfe_from_str (bfe_display v) = None).
+Proof. exact bfe_display_parse. Qed.
+Print Assumptions C20_bfe_display_parse.
+
+(* FromStr for Digest is strict: exactly five comma-separated fields, each a u64 literal below p *)
+Theorem C20_from_str_iff : forall s d,
+  digest_from_str s = Some d <->
+  length (split_on 44 s) = 5%nat /\
+  Forall2 (fun f v => u64_from_str f = Some v /\ v < P) (split_on 44 s) d.
+Proof. exact digest_from_str_iff. Qed.
+Print Assumptions C20_from_str_iff.
+
+Theorem C20_from_str_wf : forall s d, digest_from_str s = Some d -> wf_digest d.
+Proof. exact digest_from_str_wf. Qed.
+Print Assumptions C20_from_str_wf.
+
+Theorem C20_from_str_wrong_count : forall s, length (split_on 44 s) <> 5%nat -> digest_from_str s = None.
+Proof. exact digest_from_str_wrong_count. Qed.
+Print Assumptions C20_from_str_wrong_count.
+
+Theorem C20_from_str_bad_field : forall s f, In f (split_on 44 s) ->
+  (forall v, u64_from_str f = Some v -> P <= v) -> digest_from_str s = None.
+Proof. exact digest_from_str_bad_field. Qed.
+Print Assumptions C20_from_str_bad_field.
+
+(* the modelled grammar of u64::from_str, made explicit: [+] digit+ with value < 2^64 *)
+Theorem C20_u64_from_str_grammar : forall s v,
+  u64_from_str s = Some v <->
+  exists ds, (s = ds \/ s = 43 :: ds) /\ ds <> [] /\ Forall digit_char ds /\ dec_fold ds 0 = v /\ v < 2 ^ 64.
+Proof. exact u64_from_str_iff. Qed.
+Print Assumptions C20_u64_from_str_grammar.
+
+Theorem C20_u64_from_str_invalid_digit : forall s c, In c s -> ~ digit_char c -> c <> 43 -> u64_from_str s = None.
+Proof. exact u64_from_str_invalid_digit. Qed.
+Print Assumptions C20_u64_from_str_invalid_digit.
+
+(* ---------------------------------------------------------------- BigUint *)
+Theorem C20_big_is_positional_value : forall d, digest_to_big d = big_value d.
+Proof. exact digest_to_big_value. Qed.
+Print Assumptions C20_big_is_positional_value.
+
+Theorem C20_big_range : forall d, wf_digest d -> 0 <= digest_to_big d < P ^ 5.
+Proof. exact digest_big_range. Qed.
+Print Assumptions C20_big_range.
+
+Theorem C20_big_roundtrip : forall d, wf_digest d -> digest_try_from_big (digest_to_big d) = Some d.
+Proof. exact digest_big_roundtrip. Qed.
+Print Assumptions C20_big_roundtrip.
+
+Theorem C20_big_accept_iff : forall v d, 0 <= v ->
+  (digest_try_from_big v = Some d <-> wf_digest d /\ digest_to_big d = v).
+Proof. exact digest_big_accept_iff. Qed.
+Print Assumptions C20_big_accept_iff.
+
+Theorem C20_big_overflow : forall v, P ^ 5 <= v -> digest_try_from_big v = None.
+Proof. exact digest_big_overflow. Qed.
+Print Assumptions C20_big_overflow.
+
+Theorem C20_big_in_range : forall v, 0 <= v < P ^ 5 -> exists d, digest_try_from_big v = Some d.
+Proof. exact digest_big_in_range. Qed.
+Print Assumptions C20_big_in_range.
+
+(* ---------------------------------------------------------------- order *)
+(* mixed-radix lemma: the digest order is the numeric order of the base-p value, for all digests *)
+Theorem C20_cmp_is_big_order : forall d1 d2, wf_digest d1 -> wf_digest d2 ->
+  digest_cmp d1 d2 = (digest_to_big d1 ?= digest_to_big d2).
+Proof. exact digest_cmp_big. Qed.
+Print Assumptions C20_cmp_is_big_order.
+
+Theorem C20_cmp_eq_iff : forall d1 d2, wf_digest d1 -> wf_digest d2 -> (digest_cmp d1 d2 = Eq <-> d1 = d2).
+Proof. exact digest_cmp_eq_iff. Qed.
+Print Assumptions C20_cmp_eq_iff.
+
+Theorem C20_reversed_involutive : forall d, length d = 5%nat -> digest_reversed (digest_reversed d) = d.
+Proof. exact digest_reversed_involutive. Qed.
+Print Assumptions C20_reversed_involutive.
+
+(* ---------------------------------------------------------------- Vec<BFieldElement> *)
+Theorem C20_vec_roundtrip : forall d, length d = 5%nat -> digest_try_from_vec (digest_to_vec d) = Some d.
+Proof. exact digest_vec_roundtrip. Qed.
+Print Assumptions C20_vec_roundtrip.
+
+Theorem C20_vec_wrong_length : forall l, length l <> 5%nat -> digest_try_from_vec l = None.
+Proof. exact digest_vec_wrong_length. Qed.
+Print Assumptions C20_vec_wrong_length.
+
+(* ---------------------------------------------------------------- serde *)
+(* human readable: a JSON string holding to_hex; only such strings deserialise *)
+Theorem C20_json_is_hex_string : forall d, digest_ser_json d = JStr (digest_to_hex d).
+Proof. exact digest_json_is_hex_string. Qed.
+Print Assumptions C20_json_is_hex_string.
+
+Theorem C20_json_roundtrip : forall d, wf_digest d -> digest_de_json (digest_ser_json d) = Some d.
+Proof. exact digest_json_roundtrip. Qed.
+Print Assumptions C20_json_roundtrip.
+
+Theorem C20_json_strict : forall j d, digest_de_json j = Some d ->
+  exists s, j = JStr s /\ digest_try_from_hex s = Some d.
+Proof. exact digest_json_strict. Qed.
+Print Assumptions C20_json_strict.
+
+(* not human readable: the five u64 values (= the 40-byte form); a stored u64 >= p is reduced *)
+Theorem C20_bincode_is_element_array : forall d, digest_ser_bincode d = digest_to_bytes d.
+Proof. exact digest_bincode_is_bytes. Qed.
+Print Assumptions C20_bincode_is_element_array.
+
+Theorem C20_bincode_roundtrip : forall d, wf_digest d -> digest_de_bincode (digest_ser_bincode d) = Some d.
+Proof. exact digest_bincode_roundtrip. Qed.
+Print Assumptions C20_bincode_roundtrip.
+
+Theorem C20_bincode_reduces : forall ws, length ws = 5%nat -> Forall u64_val ws ->
+  digest_de_bincode (flat_map (le_bytes 8) ws) = Some (map (fun w => w mod P) ws).
+Proof. exact digest_bincode_reduces. Qed.
+Print Assumptions C20_bincode_reduces.
+
+Theorem C20_bincode_short : forall l, (length l < 40)%nat -> digest_de_bincode l = None.
+Proof. exact digest_bincode_short. Qed.
+Print Assumptions C20_bincode_short.
+
+(* ---------------------------------------------------------------- BFieldElement *)
+Theorem C20_bfe_bytes_roundtrip : forall v, canon_val v -> bfe_try_from_slice (bfe_to_bytes v) = Some v.
+Proof. exact bfe_bytes_roundtrip. Qed.
+Print Assumptions C20_bfe_bytes_roundtrip.
+
+Theorem C20_bfe_bytes_accept : forall l v, byte_list l -> bfe_try_from_slice l = Some v ->
+  length l = 8%nat /\ canon_val v /\ l = bfe_to_bytes v.
+Proof. exact bfe_bytes_accept. Qed.
+Print Assumptions C20_bfe_bytes_accept.
+
+Theorem C20_bfe_bytes_wrong_length : forall l, length l <> 8%nat -> bfe_try_from_slice l = None.
+Proof. exact bfe_bytes_wrong_length. Qed.
+Print Assumptions C20_bfe_bytes_wrong_length.
+
+Theorem C20_bfe_bytes_noncanonical : forall l, byte_list l -> P <= from_le_bytes l -> bfe_try_from_slice l = None.
+Proof. exact bfe_bytes_noncanon. Qed.
+Print Assumptions C20_bfe_bytes_noncanonical.
+
+(* canonical decimal string = value().to_string() *)
+Theorem C20_bfe_dec_roundtrip : forall v, canon_val v -> bfe_from_str (u64_to_string v) = Some v.
+Proof. exact bfe_dec_roundtrip. Qed.
+Print Assumptions C20_bfe_dec_roundtrip.
+
+Theorem C20_bfe_from_str_iff : forall s v, bfe_from_str s = Some v <-> u64_from_str s = Some v /\ v < P.
+Proof. exact bfe_from_str_iff. Qed.
+Print Assumptions C20_bfe_from_str_iff.
+
+Theorem C20_bfe_json_roundtrip : forall v, canon_val v -> bfe_de_json (bfe_ser_json v) = Some v.
+Proof. exact bfe_json_roundtrip. Qed.
+Print Assumptions C20_bfe_json_roundtrip.
+
+Theorem C20_bfe_json_reduces : forall n, u64_val n -> bfe_de_json (JNum n) = Some (n mod P).
+Proof. exact bfe_json_reduces. Qed.
+Print Assumptions C20_bfe_json_reduces.
+
+Theorem C20_bfe_bincode_roundtrip : forall v, canon_val v -> bfe_de_bincode (bfe_ser_bincode v) = Some v.
+Proof. exact bfe_bincode_roundtrip. Qed.
+Print Assumptions C20_bfe_bincode_roundtrip.
+
+Theorem C20_bfe_bincode_reduces : forall w, u64_val w -> bfe_de_bincode (le_bytes 8 w) = Some (w mod P).
+Proof. exact bfe_bincode_reduces. Qed.
+Print Assumptions C20_bfe_bincode_reduces.
+
+(* ---------------------------------------------------------------- XFieldElement <-> Digest *)
+Theorem C20_xfe_roundtrip : forall x, xfe_try_from_digest (digest_from_xfe x) = Some x.
+Proof. exact xfe_digest_roundtrip. Qed.
+Print Assumptions C20_xfe_roundtrip.
+
+Theorem C20_xfe_digest_iso : forall d x, length d = 5%nat ->
+  (xfe_try_from_digest d = Some x <-> d = digest_from_xfe x).
+Proof. exact xfe_digest_iff. Qed.
+Print Assumptions C20_xfe_digest_iso.
+
+(* invertible exactly on digests whose last two elements are zero *)
+Theorem C20_xfe_defined_iff : forall d, length d = 5%nat ->
+  ((exists x, xfe_try_from_digest d = Some x) <-> nth 3 d 0 = 0 /\ nth 4 d 0 = 0).
+Proof. exact xfe_digest_defined_iff. Qed.
+Print Assumptions C20_xfe_defined_iff.
